@@ -290,7 +290,8 @@ def run_conf_case(ctx, root, c, M, stratum):
             except OSError:
                 files_m.append([s_of_str(p), [0, 101]])
     m = M([1, env_pairs, fs_m, files_m, s_of_str(pw)])
-    case = {'mode': c.mode, 'env': c.env, 'dirs': sorted(c.dirs), 'files': c.files, 'desc': c.desc}
+    case = {'mode': c.mode, 'pfx': c.pfx, 'env': c.env, 'dirs': sorted(c.dirs), 'files': c.files, 'desc': c.desc,
+            'confs': {str(k): list(v) for k, v in c.confs.items()}, 'mentions': sorted(c.mentions)}
     cmp_res(ctx, 'read_client_conf', case, m, r, lambda d: [d.get(T), d.get(P_), d.get(M_)],
             lambda x: [m_str(y) for y in x])
     # ---- direct oracle: Spec on the implementation's answer ----
@@ -511,11 +512,13 @@ def random_cases(ctx, root, M, rng, n):
         for k in KEYS:
             if rng.random() < 0.4:
                 if k == T:
-                    c.env[ENV[k]] = rng.choice(ODD_VALUES + ['tcp://e:1'])
+                    c.env[ENV[k]] = rng.choice(ODD_VALUES + ['tcp://e:1', ' tcp://padded:1 ', 'TCP://Upper:1'])
                 else:
                     sch = rng.choice(['pib-sqlite3', 'tpm-file', 'other', ''])
                     loc = store_loc(c, k, rng.choice(SCENARIOS), 'E', cfgdir) if rng.random() < 0.8 else rng.choice(ODD_VALUES)
                     c.env[ENV[k]] = sch if loc is None else f'{sch}:{loc}'
+                    if rng.random() < 0.1:
+                        c.env[ENV[k]] = ' ' + c.env[ENV[k]] + '\t'
         if rng.random() < 0.3:
             c.dirs.add(heff + '/.ndn/ndnsec-key-file')
         if mode == 'remap' and rng.random() < 0.3:
@@ -874,6 +877,62 @@ def primitive_cases(ctx, M, rng):
             return [m_str(x[0]), m_str(x[1]), m_str(x[2]) if m_str(x[0]) == 'unix' else None, m_opt(x[3]), port]
         cmp_res(ctx, 'urlparse', u, M([6, s_of_str(u), nfkc_bad(u)]), r, lambda x: x, mc)
         ctx.case(('url', u), True, None, 'prim.url.' + r[0])
+
+
+# ---- replay of one recorded case ------------------------------------------------------------------------------------
+def replay(ctx, data):
+    """./check C20 --replay evidence/replays/C20-oracle-….json : re-run the recorded case only."""
+    from harness.lib.core import unjson
+    import ndn.client_conf as CC
+    case = unjson(data.get('case'))
+    M = ctx.call
+    root = tempfile.mkdtemp(prefix='c20-')
+    try:
+        if isinstance(case, str):
+            r = impl(CC.default_face, case)
+            print('default_face(%r) ->' % case, face_obs(r[1]) if r[0] == 'ok' else r[1:],
+                  '| model:', M([3, s_of_str(case), nfkc_bad(case)]))
+            cmp_res(ctx, 'default_face', case, M([3, s_of_str(case), nfkc_bad(case)]), r, face_obs, m_face)
+            pre, sep, _ = case.partition(':')
+            kind = M([24, s_of_str(pre.strip().lower())]) if sep else []
+            if r[0] == 'ok' and (len(kind) == 0 or kind[0] != face_obs(r[1])[0]):
+                ctx.violation('default_face', 'unknown-scheme-accepted', f'{case!r} gives {face_obs(r[1])!r}', case)
+            if r[0] == 'ok' and kind and kind[0] != 0:
+                port = urllib.parse.urlsplit(case).netloc.rpartition(':')[2]
+                if port.isascii() and port.isdigit() and face_obs(r[1])[2] != int(port):
+                    ctx.violation('default_face', 'explicit-port-zero-replaced' if int(port) == 0 else 'wrong-port',
+                                  f'{case!r} gives port {face_obs(r[1])[2]!r}', case)
+            ctx.case(('face', case), True, {'uri': case}, 'replay.face')
+        elif isinstance(case, list) and len(case) == 2:
+            r = impl(CC.default_keychain, case[0], case[1])
+            print('default_keychain%r ->' % (tuple(case),), r, '| model:', M([2, s_of_str(case[0]), s_of_str(case[1])]))
+            ctx.case(('kc',) + tuple(case), True, None, 'replay.keychain')
+        elif isinstance(case, dict):
+            old = case.get('pfx', '')
+            mode = case['mode']
+            new = '' if mode == 'remap' else root
+
+            def sub(x):
+                return x.replace(old, new) if old else x
+            c = Conf(mode, new)
+            c.env = {k: sub(v) for k, v in case['env'].items()}
+            c.dirs = set(case['dirs'])
+            c.files = {k: sub(v) for k, v in case['files'].items()}
+            c.desc = case.get('desc', {})
+            c.mentions = set(case.get('mentions', []))
+
+            def fix(v):
+                if v[0] == 'lines':
+                    return ('lines', [tuple(sub(x) if isinstance(x, str) else x for x in l) for l in v[1]])
+                return tuple(v)
+            c.confs = {int(k): fix(v) for k, v in case.get('confs', {}).items()}
+            r = run_conf_case(ctx, root, c, M, 'replay.conf')
+            print('read_client_conf ->', r)
+        else:
+            ctx.notes.append('replay: unrecognised case shape; full run')
+            run(ctx)
+    finally:
+        shutil.rmtree(root, ignore_errors=True)
 
 
 # ---- entry points ---------------------------------------------------------------------------------------------------
